@@ -32,6 +32,10 @@ import (
 
 //go:norace
 func (c *Conn) newToWriteBuf(buf []byte) {
+	if len(buf) == 0 {
+		// nothing to queue: flush never removes an entry without bytes.
+		return
+	}
 	c.left += len(buf)
 
 	allocator := c.p.g.BodyAllocator
